@@ -172,6 +172,8 @@ func main() {
 		fmt.Fprintln(os.Stderr, "unknown stream", os.Args[1])
 		os.Exit(2)
 	}
-	must(os.MkdirAll(c.out, 0o755))
+	if os.Args[1] != "extract" {
+		must(os.MkdirAll(c.out, 0o755))
+	}
 	f(c)
 }
